@@ -156,7 +156,7 @@ class Ctx:
 
     # ------------------------------------------------------------------ engine K
     def run_kani(self, files):
-        hs = [h for h in K.parse_harnesses(files) if h.prop in (None, self.pid)]
+        hs = [h for h in K.parse_harnesses(files) if h.prop is None or self.pid in h.prop.split(',')]
         hs = [h for h in hs if (h.tier == 'quick' or self.tier == 'thorough') and self.want(h.name)]
         if not hs:
             return
